@@ -2,7 +2,7 @@
    compact parse_v2 used by [parse]; (2) which type words are accepted; (3) the composed round trip
    parse (render st pi d) = Poly (denote d) for every well-formed 2.x description (stdlib style). *)
 Require Import String Ascii List ZArith NArith QArith Qcanon Bool Lia ZifyBool Permutation.
-Require Import MPSV.PolFile.Chars MPSV.PolFile.DecRatModel MPSV.PolFile.PolModel MPSV.PolFile.PolProofs
+Require Import MPSV.PolFile.Chars MPSV.PolFile.DecRatModel MPSV.PolFile.PolModel MPSV.PolFile.CIntProofs MPSV.PolFile.PolProofs
                MPSV.PolFile.RoundTripText MPSV.PolFile.RoundTripLines MPSV.PolFile.RoundTripOptions
                MPSV.PolFile.RoundTripSettings MPSV.PolFile.RoundTrip MPSV.PolFile.V2Model.
 Import ListNotations.
@@ -63,8 +63,8 @@ Proof.
       (destruct (c1 =c? "r"); [|destruct (c1 =c? "c")]);
       (destruct (c2 =c? "q"); [|destruct (c2 =c? "i"); [|destruct (c2 =c? "f")]]);
       cbv iota; cbn [v2_forget]; try reflexivity;
-      try (destruct (scan_int tp); reflexivity);
-      (destruct (scan_int tp) as [p|]; [|reflexivity]);
+      try (destruct (scan_long tp); reflexivity);
+      (destruct (scan_long tp) as [p|]; [|reflexivity]);
       (destruct (scan_int tn) as [n|]; [|reflexivity]);
       (destruct (n <? 0)%Z; [reflexivity|]);
       try reflexivity; rewrite v2_coefficients_forget; reflexivity.
@@ -99,8 +99,8 @@ Proof.
   destruct (v2_ctype (nth_error ty 2)) as [ct|]; [|split; auto].
   split; [discriminate|].
   intros [H|[H|H]]; exfalso; revert H;
-    (destruct toks as [|tp [|tn rest]]; [discriminate|destruct (scan_int tp); discriminate|]);
-    (destruct (scan_int tp); [|discriminate]); (destruct (scan_int tn) as [n|]; [|discriminate]);
+    (destruct toks as [|tp [|tn rest]]; [discriminate|destruct (scan_long tp); discriminate|]);
+    (destruct (scan_long tp); [|discriminate]); (destruct (scan_int tn) as [n|]; [|discriminate]);
     (destruct (n <? 0)%Z; [discriminate|]); (destruct dn as [dn|]; [|discriminate]);
     unfold v2_coefficients; destruct dn;
     try (destruct (read_dense _ _ _) as [[? ?]|]; discriminate);
@@ -156,7 +156,7 @@ Proof.
   rewrite IH by exact Hts. reflexivity.
 Qed.
 
-Lemma read_sparse_g check n ts : forall fuel arr,
+Lemma read_sparse_g check n ts : (Z.of_nat n <= INT_MAX)%Z -> forall fuel arr,
   Forall (term_ok (d_real d) (d_ctype d)) ts ->
   NoDup (map t_idx ts) -> Forall (fun t => (t_idx t <= n)%nat) ts ->
   length arr = S n -> Forall (fun t => nth_error arr (t_idx t) = Some None) ts ->
@@ -164,14 +164,14 @@ Lemma read_sparse_g check n ts : forall fuel arr,
   read_sparse fuel rd check (Z.of_nat n) (concat (map (sparse_tokens d) ts)) arr
   = Some (fold_left (set_term d) ts arr).
 Proof.
-  induction ts as [|t ts IH]; intros fuel arr Hok Hnd Hle Hlen Hfree Hfuel.
+  intro Hn. induction ts as [|t ts IH]; intros fuel arr Hok Hnd Hle Hlen Hfree Hfuel.
   - destruct fuel; reflexivity.
   - inversion Hok as [|? ? Ht Hts]; subst. inversion Hnd as [|? ? Hnin Hnd']; subst.
     inversion Hle as [|? ? Hi Hle']; subst. inversion Hfree as [|? ? Hf Hfree']; subst.
     destruct fuel as [|fuel]; [cbn in Hfuel; lia|].
     cbn [map concat sparse_tokens app read_sparse].
     destruct (nat_token_facts (t_idx t)) as (A & B & C).
-    rewrite scan_int_digits, C, nat_N_Z by auto.
+    rewrite scan_int_digits, C, nat_N_Z by (auto; rewrite C, nat_N_Z; lia).
     destruct ((Z.of_nat (t_idx t) <? 0)%Z || (Z.of_nat n <? Z.of_nat (t_idx t))%Z) eqn:E; [lia|].
     rewrite Nat2Z.id, Hf, Hrd by exact Ht.
     apply IH; auto.
@@ -183,6 +183,7 @@ Proof.
 Qed.
 
 Lemma sparse_array_g check :
+  (Z.of_nat (d_degree d) <= INT_MAX)%Z ->
   Forall (term_ok (d_real d) (d_ctype d)) (d_terms d) ->
   NoDup (map t_idx (d_terms d)) -> Forall (fun t => (t_idx t <= d_degree d)%nat) (d_terms d) ->
   read_sparse (length (concat (map (sparse_tokens d) (d_terms d)))) rd
@@ -191,8 +192,8 @@ Lemma sparse_array_g check :
                         | Some t => Some (term_val (d_real d) t) | None => None end)
               (seq 0 (S (d_degree d)))).
 Proof.
-  intros Hterms Hnd Hle.
-  rewrite (read_sparse_g check (d_degree d)); auto.
+  intros Hdi Hterms Hnd Hle.
+  rewrite (read_sparse_g check (d_degree d) _ Hdi); auto.
   - f_equal. set (arr := fold_left (set_term d) (d_terms d) (repeat None (S (d_degree d)))).
     assert (Hlen : length arr = S (d_degree d)) by (unfold arr; rewrite fold_set_length, repeat_length; reflexivity).
     rewrite <- Hlen. apply list_from_nth. intros i Hi. unfold arr.
@@ -317,12 +318,17 @@ Proof. unfold legacy_type. destruct (d_sparse d), (d_real d), (d_ctype d); repea
 Definition legacy_prec_token (d : polydesc) : text :=
   match d_prec d with Some P => N_digits (Npos P) | None => ["0"] end.
 
+Lemma prec2_lt P : prec2_in_range (Zpos P) -> (Zpos P < 2 ^ 51)%Z.
+Proof. unfold prec2_in_range. exact (fun H => H). Qed.
+
 Lemma legacy_prec_scan d :
-  scan_int (legacy_prec_token d) = Some (match d_prec d with Some P => Zpos P | None => 0%Z end).
+  match d_prec d with Some P => prec2_in_range (Zpos P) | None => True end ->
+  scan_long (legacy_prec_token d) = Some (match d_prec d with Some P => Zpos P | None => 0%Z end).
 Proof.
-  unfold legacy_prec_token. destruct (d_prec d) as [P|]; [|reflexivity].
-  rewrite scan_int_digits by (apply N_digits_all_digits || apply N_digits_nonempty).
-  rewrite N_digits_val. reflexivity.
+  unfold legacy_prec_token. destruct (d_prec d) as [P|]; [|reflexivity]. intro PB.
+  rewrite scan_long_digits; [rewrite N_digits_val; reflexivity|apply N_digits_all_digits|apply N_digits_nonempty|].
+  rewrite N_digits_val. apply prec2_lt in PB. change (Z.of_N (N.pos P)) with (Z.pos P).
+  apply Z.lt_le_incl, Z.lt_trans with (2 ^ 51)%Z; [exact PB|reflexivity].
 Qed.
 
 Lemma legacy_prec_tok_ok d : tok_ok (legacy_prec_token d).
@@ -347,14 +353,16 @@ Qed.
 Theorem read_v2_rendered d : wf d -> d_legacy d = true ->
   read_v2 (legacy_header_tokens d ++ coeff_tokens d) = V2_poly (denote d).
 Proof.
-  intros (Hdeg & Hterms & _ & Hk & Hlk) Hleg.
+  intros (Hdeg & Hterms & _ & Hk & Hlk & Hdr & Hpb) Hleg.
+  rewrite Hleg in Hpb.
+  assert (Hdi : (Z.of_nat (d_degree d) <= INT_MAX)%Z) by (unfold degree_in_range in Hdr; lia).
   pose proof (Hlk Hleg) as Hkind. rewrite Hkind in Hk. destruct Hk as [Hb Hk].
   destruct (legacy_type_chars d) as (T0 & T1 & T2).
   unfold legacy_header_tokens. cbn [app]. unfold read_v2. rewrite T0, T1, T2.
   change (match d_prec d with Some P => N_digits (N.pos P) | None => ["0"] end) with (legacy_prec_token d).
-  rewrite legacy_prec_scan.
+  rewrite legacy_prec_scan by exact Hpb.
   destruct (nat_token_facts (d_degree d)) as (A & B & C).
-  rewrite scan_int_digits, C, nat_N_Z by auto.
+  rewrite scan_int_digits, C, nat_N_Z by (auto; rewrite C, nat_N_Z; exact Hdi).
   destruct (Z.of_nat (d_degree d) <? 0)%Z eqn:E; [lia|].
   unfold v2_coefficients, v2_settings, coeff_tokens, denote. rewrite Hkind. rewrite Nat2Z.id.
   assert (PR : prec_bits match d_prec d with Some P => Z.pos P | None => 0%Z end
